@@ -36,6 +36,13 @@ fn real_main() {
         }
         return;
     }
+    if cmd == "miri-slice" {
+        // FFI-free workloads for `cargo +nightly miri run` (no Elements environment is built)
+        let seed: u64 = arg("--seed").and_then(|s| s.parse().ok()).unwrap_or(1);
+        let count: u64 = arg("--count").and_then(|s| s.parse().ok()).unwrap_or(6);
+        props::miri::run(seed, count);
+        return;
+    }
     bridge::install_panic_hook();
     let seed: u64 = arg("--seed").and_then(|s| s.parse().ok()).unwrap_or(1);
     let (shard, nshards) = arg("--shard")
@@ -142,6 +149,11 @@ fn main() {
     // deep programs recurse deeply in the interpreter and the trace machine
     // ... except for the children of C06, which call the library on an 8 MiB stack like an
     // ordinary caller (that is what `simc` has), so that a stack overflow becomes visible
+    if std::env::args().nth(1).map_or(false, |c| c == "miri-slice") {
+        // under Miri: no giant thread stack
+        real_main();
+        return;
+    }
     let is_c06_child = std::env::args().nth(1).map_or(false, |c| c == "c06-child");
     let t = std::thread::Builder::new()
         .stack_size(if is_c06_child { 8 << 20 } else { 2 << 30 })
